@@ -49,9 +49,24 @@ func checkEscaper(w *World, c *Check, rule string) {
 		c.bad(rule, "anchor", w.FuncPos(esc), "the escaper no longer takes (*bytes.Buffer, []byte, …) (undecided)")
 		return
 	}
+	// a parameter captured by a local closure is spilled into a cell and read back through loads: both forms count
+	isParamVal := func(v ssa.Value, p *ssa.Parameter) bool {
+		if v == ssa.Value(p) {
+			return true
+		}
+		if u, ok := v.(*ssa.UnOp); ok && u.Op == token.MUL {
+			if al, ok := u.X.(*ssa.Alloc); ok {
+				st := storesTo(al)
+				return len(st) == 1 && st[0].Val == ssa.Value(p)
+			}
+		}
+		return false
+	}
+	isBuf := func(v ssa.Value) bool { return isParamVal(v, buf) }
+	isSrc := func(v ssa.Value) bool { return isParamVal(v, src) }
 	isWrite := func(in ssa.Instruction) (*ssa.Call, bool) {
 		call, ok := in.(*ssa.Call)
-		if !ok || call.Common().IsInvoke() || len(call.Common().Args) < 1 || call.Common().Args[0] != ssa.Value(buf) {
+		if !ok || call.Common().IsInvoke() || len(call.Common().Args) < 1 || !isBuf(call.Common().Args[0]) {
 			return nil, false
 		}
 		cal := call.Common().StaticCallee()
@@ -64,11 +79,21 @@ func checkEscaper(w *World, c *Check, rule string) {
 		}
 		return nil, false
 	}
+	var flushClosure *ssa.Function // set below when flushes go through a local closure
+	isWriteOrFlush := func(in ssa.Instruction) (*ssa.Call, bool) {
+		if call, ok := isWrite(in); ok {
+			return call, true
+		}
+		if call, ok := in.(*ssa.Call); ok && flushClosure != nil && calledClosure(call) == flushClosure {
+			return call, true
+		}
+		return nil, false
+	}
 	// the cursor: a slice s[A:B] of the source with both bounds phis of one block
 	var startPhi, iPhi *ssa.Phi
 	for _, b := range esc.Blocks {
 		for _, in := range b.Instrs {
-			if sl, ok := in.(*ssa.Slice); ok && sl.X == ssa.Value(src) && sl.Low != nil && sl.High != nil {
+			if sl, ok := in.(*ssa.Slice); ok && isSrc(sl.X) && sl.Low != nil && sl.High != nil {
 				lo, ok1 := sl.Low.(*ssa.Phi)
 				hi, ok2 := sl.High.(*ssa.Phi)
 				if ok1 && ok2 && lo.Block() == hi.Block() && lo != hi {
@@ -77,11 +102,103 @@ func checkEscaper(w *World, c *Check, rule string) {
 			}
 		}
 	}
+	// second form: the cursor lives in a local cell because a local closure performs the conditional flush
+	//   flush := func(end int) { if start < end { e.Write(s[start:end]) } }
+	var startCell *ssa.Alloc
+	var flushFn *ssa.Function
 	if startPhi == nil {
-		c.bad(rule, name+":cursor", w.FuncPos(esc), "the lazy-flush cursor idiom (write s[start:i] with both bounds carried round the loop) is no longer recognised: the escaper's copy discipline is undecided")
+		for _, a := range esc.AnonFuncs {
+			if len(a.Params) != 1 || len(a.FreeVars) == 0 {
+				continue
+			}
+			mc := makeClosureOf(esc, a)
+			if mc == nil {
+				continue
+			}
+			bound := func(v ssa.Value) ssa.Value { // what a free variable of the closure stands for in esc
+				for i, fv := range a.FreeVars {
+					if v == ssa.Value(fv) && i < len(mc.Bindings) {
+						return mc.Bindings[i]
+					}
+				}
+				return nil
+			}
+			derefsTo := func(v ssa.Value, want ssa.Value) bool { // v is a load of a captured cell that holds `want`
+				u, ok := v.(*ssa.UnOp)
+				if !ok || u.Op != token.MUL {
+					return false
+				}
+				cell, _ := bound(u.X).(*ssa.Alloc)
+				if cell == nil {
+					return false
+				}
+				st := storesTo(cell)
+				return len(st) == 1 && st[0].Val == want
+			}
+			for _, b := range a.Blocks {
+				for _, in := range b.Instrs {
+					call, ok := in.(*ssa.Call)
+					if !ok || call.Common().StaticCallee() == nil || len(call.Common().Args) != 2 {
+						continue
+					}
+					switch call.Common().StaticCallee().Name() {
+					case "Write", "WriteString":
+					default:
+						continue
+					}
+					sl, ok := call.Common().Args[1].(*ssa.Slice)
+					if !ok || sl.Low == nil || sl.High != ssa.Value(a.Params[0]) {
+						continue
+					}
+					if !derefsTo(call.Common().Args[0], buf) && bound(call.Common().Args[0]) != ssa.Value(buf) {
+						continue
+					}
+					if !derefsTo(sl.X, src) && bound(sl.X) != ssa.Value(src) {
+						continue
+					}
+					lo, ok := sl.Low.(*ssa.UnOp)
+					if !ok || lo.Op != token.MUL {
+						continue
+					}
+					cell, _ := bound(lo.X).(*ssa.Alloc)
+					if cell == nil {
+						continue
+					}
+					// the write must sit on the true side of `start < end`
+					guarded := false
+					for _, g := range rawGuards(b) {
+						if bo, ok := g.cond.(*ssa.BinOp); ok && g.onTrue {
+							l, isLoad := bo.X.(*ssa.UnOp)
+							if bo.Op == token.LSS && isLoad && l.Op == token.MUL && bound(l.X) == ssa.Value(cell) && bo.Y == ssa.Value(a.Params[0]) {
+								guarded = true
+							}
+						}
+					}
+					if guarded {
+						startCell, flushFn = cell, a
+					}
+				}
+			}
+		}
+		if startCell != nil {
+			// the scan position: the phi handed to the flush closure inside a loop
+			for _, b := range esc.Blocks {
+				for _, in := range b.Instrs {
+					if call, ok := in.(*ssa.Call); ok && calledClosure(call) == flushFn && len(call.Common().Args) == 1 {
+						if phi, ok := call.Common().Args[0].(*ssa.Phi); ok {
+							iPhi = phi
+						}
+					}
+				}
+			}
+		}
+	}
+	if startPhi == nil && (startCell == nil || iPhi == nil) {
+		c.bad(rule, name+":cursor", w.FuncPos(esc), "the lazy-flush cursor idiom (write s[start:i] with both bounds carried round the loop, inline or through a local flush closure) is no longer recognised: the escaper's copy discipline is undecided")
 		return
 	}
-	H := startPhi.Block()
+	flushClosure = flushFn
+	H := iPhi.Block()
 	// loop body: blocks that H reaches and that reach H
 	inLoop := map[*ssa.BasicBlock]bool{}
 	for _, b := range esc.Blocks {
@@ -89,12 +206,22 @@ func checkEscaper(w *World, c *Check, rule string) {
 			inLoop[b] = true
 		}
 	}
+	isCursor := func(v ssa.Value) bool {
+		if startPhi != nil {
+			return v == ssa.Value(startPhi)
+		}
+		u, ok := v.(*ssa.UnOp)
+		return ok && u.Op == token.MUL && u.X == ssa.Value(startCell)
+	}
 	isFlush := func(call *ssa.Call) bool {
+		if flushFn != nil && calledClosure(call) == flushFn {
+			return len(call.Common().Args) == 1 && call.Common().Args[0] == ssa.Value(iPhi)
+		}
 		if len(call.Common().Args) != 2 {
 			return false
 		}
 		sl, ok := call.Common().Args[1].(*ssa.Slice)
-		return ok && sl.X == ssa.Value(src) && sl.Low == ssa.Value(startPhi) && sl.High == ssa.Value(iPhi)
+		return ok && isSrc(sl.X) && sl.Low != nil && isCursor(sl.Low) && sl.High == ssa.Value(iPhi)
 	}
 	writeLabel := func(call *ssa.Call) string {
 		if len(call.Common().Args) == 2 {
@@ -135,7 +262,7 @@ func checkEscaper(w *World, c *Check, rule string) {
 		seen[cur] = true
 		wrote := cur.wrote
 		for _, in := range cur.b.Instrs {
-			if call, ok := isWrite(in); ok {
+			if call, ok := isWriteOrFlush(in); ok {
 				wrote = true
 				if !isFlush(call) && firstEsc[cur.b] == "" {
 					firstEsc[cur.b] = writeLabel(call)
@@ -169,9 +296,36 @@ func checkEscaper(w *World, c *Check, rule string) {
 			continue
 		}
 		nBack++
-		vs, vi := startPhi.Edges[pi], iPhi.Edges[pi]
+		vi := iPhi.Edges[pi]
+		var vs ssa.Value // the cursor's value on this edge; nil = left as it was
+		if startPhi != nil {
+			vs = startPhi.Edges[pi]
+			if vs == ssa.Value(startPhi) {
+				vs = nil
+			}
+		} else {
+			// the nearest store to the cell in a block that dominates this edge's source, inside the loop
+			for d := p; d != nil && d != H && vs == nil; d = d.Idom() {
+				for k := len(d.Instrs) - 1; k >= 0; k-- {
+					if st, ok := d.Instrs[k].(*ssa.Store); ok && st.Addr == ssa.Value(startCell) {
+						vs = st.Val
+						break
+					}
+				}
+			}
+			// a store on only some of the paths to this edge cannot be judged
+			for _, st := range storesTo(startCell) {
+				if inLoop[st.Block()] && reachesWithin(st.Block(), p, H) && !(st.Block() == p || st.Block().Dominates(p)) {
+					vs = st.Val
+					vi = nil
+				}
+			}
+		}
 		step := "?"
-		if bo, ok := vi.(*ssa.BinOp); ok && bo.Op == token.ADD && bo.X == ssa.Value(iPhi) {
+		if vi == nil {
+			vi = iPhi.Edges[pi]
+			step = "?"
+		} else if bo, ok := vi.(*ssa.BinOp); ok && bo.Op == token.ADD && bo.X == ssa.Value(iPhi) {
 			if k, ok := bo.Y.(*ssa.Const); ok {
 				step = "i+" + k.Value.ExactString()
 			} else {
@@ -195,9 +349,13 @@ func checkEscaper(w *World, c *Check, rule string) {
 			c.bad(rule, key, pos, "the scan position is not advanced by a positive step of the current position on this path (undecided)")
 		case reachW[p] && reachNW[p]:
 			c.bad(rule, key, pos, "this way round the loop is reached both with and without output having been written: the cursor discipline cannot be decided")
-		case reachW[p] && !sameIntExpr(vs, vi):
-			c.bad(rule, key, pos, fmt.Sprintf("after writing an escape the copy cursor is left at %s while the scan position moves to %s: the bytes before the escape are written again by the next flush (text is duplicated / the raw character is emitted as well)", shortVal(vs), shortVal(vi)))
-		case reachNW[p] && !reachW[p] && vs != ssa.Value(startPhi):
+		case reachW[p] && (vs == nil || !sameIntExpr(vs, vi)):
+			at := "where it was"
+			if vs != nil {
+				at = "at " + shortVal(vs)
+			}
+			c.bad(rule, key, pos, fmt.Sprintf("after writing an escape the copy cursor is left %s while the scan position moves to %s: the bytes before the escape are written again by the next flush (text is duplicated / the raw character is emitted as well)", at, shortVal(vi)))
+		case reachNW[p] && !reachW[p] && vs != nil:
 			c.bad(rule, key, pos, fmt.Sprintf("nothing was written on this path but the copy cursor moves to %s: the pending bytes are dropped from the output", shortVal(vs)))
 		default:
 			c.ok(rule, key, pos, "cursor and scan position agree with what was written")
@@ -216,14 +374,24 @@ func checkEscaper(w *World, c *Check, rule string) {
 		if !ok {
 			return nil, false
 		}
-		lt := (bo.Op == token.LSS && bo.X == ssa.Value(startPhi) && bo.Y == ssa.Value(iPhi)) || (bo.Op == token.GTR && bo.Y == ssa.Value(startPhi) && bo.X == ssa.Value(iPhi))
-		ne := bo.Op == token.NEQ && ((bo.X == ssa.Value(startPhi) && bo.Y == ssa.Value(iPhi)) || (bo.Y == ssa.Value(startPhi) && bo.X == ssa.Value(iPhi)))
+		lt := (bo.Op == token.LSS && isCursor(bo.X) && bo.Y == ssa.Value(iPhi)) || (bo.Op == token.GTR && isCursor(bo.Y) && bo.X == ssa.Value(iPhi))
+		ne := bo.Op == token.NEQ && ((isCursor(bo.X) && bo.Y == ssa.Value(iPhi)) || (isCursor(bo.Y) && bo.X == ssa.Value(iPhi)))
 		if !lt && !ne {
 			return nil, false
 		}
 		return b.Succs[0], true
 	}
 	flushed := func(at *ssa.BasicBlock) bool {
+		// a call of the flush closure with the scan position, in this block or a dominating one (the guard is inside it)
+		if flushFn != nil {
+			for d := at; d != nil && d != H; d = d.Idom() {
+				for _, in := range d.Instrs {
+					if call, ok := in.(*ssa.Call); ok && calledClosure(call) == flushFn && isFlush(call) {
+						return true
+					}
+				}
+			}
+		}
 		// some dominating guard block G (start < i) whose true successor flushes and rejoins
 		for d := at; d != nil && d != H; d = d.Idom() {
 			if t, ok := isFlushGuard(d); ok && d != at {
@@ -276,16 +444,30 @@ func checkEscaper(w *World, c *Check, rule string) {
 				continue
 			}
 			bo, ok := ifi.Cond.(*ssa.BinOp)
-			if !ok || bo.Op != token.LSS || bo.X != ssa.Value(startPhi) {
+			if !ok || bo.Op != token.LSS || !isCursor(bo.X) {
 				continue
 			}
-			if base, isLen := lenOperand(bo.Y); !isLen || base != ssa.Value(src) {
+			if base, isLen := lenOperand(bo.Y); !isLen || !isSrc(base) {
 				continue
 			}
 			for _, in := range d.Succs[0].Instrs {
 				if call, ok := isWrite(in); ok && len(call.Common().Args) == 2 {
-					if sl, ok := call.Common().Args[1].(*ssa.Slice); ok && sl.X == ssa.Value(src) && sl.Low == ssa.Value(startPhi) && sl.High == nil {
+					if sl, ok := call.Common().Args[1].(*ssa.Slice); ok && isSrc(sl.X) && sl.Low != nil && isCursor(sl.Low) && sl.High == nil {
 						finalOK = true
+					}
+				}
+			}
+		}
+	}
+	if flushFn != nil {
+		// flush(len(s)) in a block that dominates the return
+		for _, rb := range returnBlocks(esc) {
+			for d := rb; d != nil; d = d.Idom() {
+				for _, in := range d.Instrs {
+					if call, ok := in.(*ssa.Call); ok && calledClosure(call) == flushFn && len(call.Common().Args) == 1 {
+						if base, isLen := lenOperand(call.Common().Args[0]); isLen && isSrc(base) {
+							finalOK = true
+						}
 					}
 				}
 			}
@@ -307,7 +489,7 @@ func checkEscaper(w *World, c *Check, rule string) {
 			return false
 		}
 		ia, ok := u.X.(*ssa.IndexAddr)
-		return ok && ia.X == ssa.Value(src) && ia.Index == ssa.Value(iPhi)
+		return ok && isSrc(ia.X) && ia.Index == ssa.Value(iPhi)
 	}
 	// conditions under which block b is entered: constants k with (cur == k) on the true edge of each predecessor
 	enterConsts := func(b *ssa.BasicBlock, isSubject func(ssa.Value) bool) ([]int64, bool) {
@@ -386,7 +568,7 @@ func checkEscaper(w *World, c *Check, rule string) {
 		arg := first.Common().Args[1]
 		pos := w.InstrPos(first)
 		switch {
-		case len(ws) == 1 && first.Common().StaticCallee().Name() == "WriteRune":
+		case len(ws) == 1 && (first.Common().StaticCallee().Name() == "WriteRune" || first.Common().StaticCallee().Name() == "WriteByte"):
 			if k, ok := arg.(*ssa.Const); ok {
 				r, _ := constant.Int64Val(k.Value)
 				if r == '\\' {
@@ -540,6 +722,51 @@ func sameIntExpr(a, b ssa.Value) bool {
 	ky, ok2 := b.(*ssa.Const)
 	if ok1 && ok2 && kx.Value != nil && ky.Value != nil {
 		return constant.Compare(kx.Value, token.EQL, ky.Value)
+	}
+	return false
+}
+
+// makeClosureOf: the MakeClosure instruction in parent that creates fn.
+func makeClosureOf(parent, fn *ssa.Function) *ssa.MakeClosure {
+	for _, b := range parent.Blocks {
+		for _, in := range b.Instrs {
+			if mc, ok := in.(*ssa.MakeClosure); ok && mc.Fn == fn {
+				return mc
+			}
+		}
+	}
+	return nil
+}
+
+// calledClosure: the local closure a call instruction invokes directly (nil if it calls something else).
+func calledClosure(call *ssa.Call) *ssa.Function {
+	if mc, ok := call.Common().Value.(*ssa.MakeClosure); ok {
+		f, _ := mc.Fn.(*ssa.Function)
+		return f
+	}
+	return nil
+}
+
+// reachesWithin: b is reachable from a without passing through the block stop (one iteration of a loop headed by stop).
+func reachesWithin(a, b, stop *ssa.BasicBlock) bool {
+	if a == b {
+		return true
+	}
+	seen := map[*ssa.BasicBlock]bool{a: true}
+	work := []*ssa.BasicBlock{a}
+	for len(work) > 0 {
+		x := work[len(work)-1]
+		work = work[:len(work)-1]
+		for _, s := range x.Succs {
+			if s == stop || seen[s] {
+				continue
+			}
+			if s == b {
+				return true
+			}
+			seen[s] = true
+			work = append(work, s)
+		}
 	}
 	return false
 }
